@@ -70,7 +70,7 @@ impl Pool {
             jobs,
             scratch,
             timeout: Duration::from_secs(600),
-            recycle_after: 400,
+            recycle_after: 40,
         }
     }
 
